@@ -242,3 +242,8 @@ func c17R6(c *Ctx) {
 func c04R10(c *Ctx) {
 	shareRule(c, "C12.R20", "C04.R10", c12R20, "the `enabled` verdict of a step is recorded only while handling the enabling stage's input: code that takes the verdict as given while handling another stage's input (items arrived, so the loop is enabled) runs a step whose real verdict — `false` — is then refused as a second provision")
 }
+
+// C02: a stage is fed with the data its references produced — including the optional ones whose source is already there.
+func c02R11(c *Ctx) {
+	shareRule(c, "C03.R13", "C02.R11", c03R13, "ready dependency groups are handled before the other ready nodes of a round: a stage input with a required and a `!soft-optional` reference to the same output gets the optional value whenever the required one is there")
+}
